@@ -127,7 +127,11 @@ class LowerToIRVisitor(Visitor.DefaultVisitor):
             self.__locals[name] = LinearIR.VariableAccessScope.FUNCTION_LOCAL
 
         def LookupVariableScope(self, name) -> LinearIR.VariableAccessScope:
-            return self.__variables[name]
+            # Variables which are neither local, arguments nor declared in
+            # this module are globals of an imported module
+            return self.__variables.get(
+                name, LinearIR.VariableAccessScope.GLOBAL
+            )
 
         def OnEnterNode(self):
             self.__assignmentValue.append(None)
